@@ -16,6 +16,9 @@
 (*          assignment in which neighbouring present sources carry         *)
 (*          different values + NRand seeded random assignments, which      *)
 (*          also put values into sources the field does NOT name)          *)
+(* bounds : every integer kind (plain/pointer/slice, 8..64 bit) x every    *)
+(*          source x every width-boundary text (max, max+1, min, min-1,    *)
+(*          2^bits, digit strings beyond 64 bit, negative for unsigned)    *)
 (* multi  : NMulti seeded types with 2..6 fields sharing names a/b         *)
 (* order  : NOrder seeded cases: 2..3 types, random first/again programs   *)
 (* conc   : NConc  seeded cases: 3..4 types bound concurrently             *)
@@ -24,7 +27,7 @@
 (***************************************************************************)
 EXTENDS Binding, Json, IOUtils, SequencesExt
 
-CONSTANTS MaxTagSet, NRand, NMulti, NReqMulti, NOrder, NConc
+CONSTANTS MaxTagSet, NKindsSingle, NRand, NMulti, NReqMulti, NOrder, NConc, Bounds
 
 Seed == atoi(IOEnv.VERIF_SEED)
 \* small integer hash (TLC integers are 32 bit): an LCG step H and a squaring step M; every intermediate < 2^31
@@ -34,7 +37,15 @@ R3(a, b, c) == M(H(H(H(Seed % 65537) + (a % 65537)) + b) + c)
 R4(a, b, c, d) == M(M(R3(a, b, c) + d) + d * 7)
 Pick(seq, h) == seq[(h % Len(seq)) + 1]
 
-KindSeq == <<"bool", "int8", "int", "uint8", "uint", "float64", "string", "*int", "*string", "[]int", "[]string">>
+\* the first 11 kinds are enumerated exhaustively in every tier (NKindsSingle = 11); the sized-integer kinds behind it
+\* take part in the full enumeration of the thorough tier, and in every tier in the boundary sweep and the sampled types
+KindSeq == <<"bool", "int8", "int", "uint8", "uint", "float64", "string", "*int", "*string", "[]int", "[]string",
+             "int16", "int32", "uint16", "uint32", "*int8", "*int16", "*int32", "*uint8", "*uint16", "*uint32",
+             "[]int8", "[]int16", "[]int32", "[]uint16", "[]uint32">>
+IntKindSeq == SelectSeq(KindSeq, LAMBDA k : Base(k) \in IntKinds)
+BoundarySeq == SetToSeq(BoundaryText)
+\* boundary texts that matter most for the narrow widths, mixed into the random pools of integer fields
+EdgeSeq == <<"127", "128", "-128", "-129", "255", "256", "32767", "32768", "-32769", "65535", "65536", "2147483648", "4294967296", "99999999999999999999999">>
 TextSeq == <<"0", "1", "-1", "300", "1.5", "true", "x">>
 TextSeqE == TextSeq \o <<"">>       \* form, query, cookie, header can carry a present-but-empty value; path / json never do (unconstrained)
 EmptyOK(i) == i \in 2 .. 5
@@ -46,8 +57,13 @@ Rot(b) == CASE b = "bool"    -> <<"0", "1">>
             [] b = "uint"    -> <<"1", "300", "0">>
             [] b = "float64" -> <<"1.5", "-1", "0", "300", "1">>
             [] b = "string"  -> <<"x", "1", "true", "-1">>
+            [] b = "int16"   -> <<"1", "-32768", "0", "32767">>
+            [] b = "int32"   -> <<"1", "-2147483648", "0", "2147483647">>
+            [] b = "uint16"  -> <<"1", "65535", "0">>
+            [] b = "uint32"  -> <<"1", "4294967295", "0">>
 DefText(b) == CASE b = "bool" -> "true" [] b = "int8" -> "-1" [] b = "int" -> "300" [] b = "uint8" -> "1"
                 [] b = "uint" -> "300" [] b = "float64" -> "1.5" [] b = "string" -> "x"
+                [] b = "int16" -> "32767" [] b = "int32" -> "-1" [] b = "uint16" -> "65535" [] b = "uint32" -> "300"
 
 InMask(m, i) == (m \div (2 ^ (i - 1))) % 2 = 1
 Bits(m) == Cardinality({i \in 1 .. 6 : InMask(m, i)})
@@ -64,7 +80,7 @@ Entry(i, name, texts, lit) == [src |-> Priority[i], name |-> name, texts |-> tex
 (* single-field types *)
 
 \* spec = <<kind index, tag mask, required variant (0 none, 1..6 that source, 7 all), default 0/1>>
-SingleSpecs == {<<k, m, rv, d>> \in (1 .. 11) \X (1 .. 63) \X (0 .. 7) \X (0 .. 1) :
+SingleSpecs == {<<k, m, rv, d>> \in (1 .. NKindsSingle) \X (1 .. 63) \X (0 .. 7) \X (0 .. 1) :
                    /\ Bits(m) <= MaxTagSet
                    /\ rv \in 1 .. 6 => InMask(m, rv)}
 SingleSeq == SetToSeq(SingleSpecs)
@@ -91,6 +107,7 @@ SingleReq(n, f, m, p, v) ==
         one(i) == IF v = NRand + 1 /\ ord(i) = 1 THEN ""                     \* E: the highest-priority present source is EMPTY
                   ELSE IF sysv THEN rot[((ord(i) + p) % Len(rot)) + 1]
                   ELSE IF i = 6 THEN Pick(rot, R4(n, p, v, 21))
+                  ELSE IF b \in IntKinds /\ R4(n, p, v, 60 + i) % 3 = 0 THEN Pick(EdgeSeq, R4(n, p, v, 30 + i))
                   ELSE IF EmptyOK(i) THEN Pick(TextSeqE, R4(n, p, v, 30 + i))
                   ELSE Pick(TextSeq, R4(n, p, v, 30 + i))
         two(i) == IF ~sysv /\ IsSlice(f.kind) /\ (MultiOK(i) \/ i = 6) /\ R4(n, p, v, 40 + i) % 3 = 0
@@ -145,7 +162,7 @@ RandField(c, ti, i) ==
 
 RandType(c, ti, nf) == [fields |-> [i \in 1 .. nf |-> RandField(c, ti, i)]]
 
-BiasText(h) == IF h % 10 < 7 THEN Pick(<<"0", "1">>, h \div 10) ELSE Pick(TextSeq, h \div 10)
+BiasText(h) == IF h % 10 < 6 THEN Pick(<<"0", "1">>, h \div 10) ELSE IF h % 10 = 6 THEN Pick(EdgeSeq, h \div 10) ELSE Pick(TextSeq, h \div 10)
 BiasTextE(h, i) == IF EmptyOK(i) /\ h % 10 = 9 THEN "" ELSE BiasText(h)
 
 \* request q of case c over the names a/b (header A/B) and the json names of the given types
@@ -210,8 +227,28 @@ ConcCase(c) ==
                           t |-> ti, r |-> (R3(c, 3000 + k, 3) % nr) + 1]]]
 
 ------------------------------------------------------------------------------
+(* boundary sweep: EVERY integer kind (plain, pointer, slice; 8..64 bit) x EVERY source x EVERY boundary text.     *)
+(* One case per (kind, source): a single-field type tagged with that source only; one request per text           *)
+(* (json: only the texts that fit the kind -- an ill-typed JSON literal is unconstrained), for slices in addition *)
+(* the text as SECOND element after a valid first one (form/query/header).                                        *)
+SweepTexts == <<"0", "1", "-1", "300">> \o BoundarySeq
+BoundCase(ki, i) ==
+    LET kind == IntKindSeq[ki]
+        b    == Base(kind)
+        nm   == TagName(Priority[i], "a", 1)
+        f    == [kind |-> kind, tags |-> <<[src |-> Priority[i], name |-> nm, req |-> FALSE]>>, def |-> << >>]
+        txs  == IF i = 6 THEN SelectSeq(SweepTexts, LAMBDA t : ConvOk(b, t)) ELSE SweepTexts
+        rq(tx) == [body |-> IF i = 6 THEN "json" ELSE IF i = 2 THEN "form" ELSE "none",
+                   vals |-> <<Entry(i, nm, tx, IF i = 6 THEN JsonLit(kind, tx) ELSE "")>>]
+        reqs == [x \in 1 .. Len(txs) |-> rq(<<txs[x]>>)]
+                \o (IF IsSlice(kind) /\ MultiOK(i) THEN [x \in 1 .. Len(txs) |-> rq(<<"1", txs[x]>>)] ELSE << >>)
+    IN  [kind |-> "bounds", shadow |-> FALSE, conc |-> FALSE, types |-> <<[fields |-> <<f>>]>>, reqs |-> reqs,
+         prog |-> ProgAll(1000 * ki + i, Len(reqs))]
+BoundCases == IF Bounds THEN [x \in 1 .. Len(IntKindSeq) * 6 |-> BoundCase(((x - 1) \div 6) + 1, ((x - 1) % 6) + 1)] ELSE << >>
+
 NS == Len(SingleSeq)
 AllCases == FlattenSeq([n \in 1 .. NS |-> SingleCases(n)])
+            \o BoundCases
             \o [c \in 1 .. NMulti |-> MultiCase(10000 + c)]
             \o [c \in 1 .. NOrder |-> OrderCase(20000 + c)]
             \o [c \in 1 .. NConc |-> ConcCase(30000 + c)]
